@@ -383,7 +383,10 @@ func caseTimer() {
 		if len(pend) > 0 {
 			fire = now.Add(pend[0].D)
 		}
-		fire = fire.Add(Pick(rnd, []time.Duration{0, 0, time.Nanosecond, time.Second, time.Hour, 30 * time.Hour}))
+		// ... or much later (the timer runs on the monotonic clock, which stops
+		// while the machine is suspended): days, weeks, a year
+		fire = fire.Add(Pick(rnd, []time.Duration{0, 0, time.Nanosecond, time.Second, time.Hour, 30 * time.Hour,
+			7 * 24 * time.Hour, 7*24*time.Hour - time.Second, 223 * time.Hour, 396 * time.Hour, 372 * 24 * time.Hour}))
 		fields = append(fields, I(int64(len(pend))), I(delayOf(pend)), I(b.Unix()), I(e.Unix()), I(int64(n)), I(fire.Unix()), I(int64(fire.Nanosecond())))
 		now = fire
 		for _, t := range pend {
@@ -501,6 +504,96 @@ func caseUpload() {
 		B(consumed), I(int64(nrep)), HS(week))
 }
 
+// uploadmulti: several programs, several consecutive weeks, ONE upload run:
+// every finished file is reported under the week named by ITS recorded end.
+func caseUploadMulti() {
+	now0 := genNow()
+	if now0.Year() < 1971 {
+		now0 = now0.AddDate(2, 0, 0)
+	}
+	if now0.Year() > 9900 {
+		now0 = now0.AddDate(-100, 0, 0)
+	}
+	wd := rnd.Intn(7)
+	dir := setupDir([]byte(fmt.Sprintf("%d\n", wd)), false)
+	defer os.RemoveAll(dir)
+	telemetry.Default.SetModeAsOf("local", now0.Add(-400*24*time.Hour))
+	progs := [][3]string{{"example.com/tools/alpha", "v1.0.0", "go1.22.1"}, {"example.com/tools/beta", "v0.3.1", "go1.23.5"},
+		{"example.com/x/gamma", "v2.0.0", "go1.21.0"}}
+	np := 2 + rnd.Intn(2)
+	nw := 2 + rnd.Intn(2)
+	type cf struct {
+		p    int
+		e    time.Time
+		n    int
+		name string
+	}
+	var files []cf
+	var lastEnd time.Time
+	for w := 0; w < nw; w++ {
+		now := now0.Add(time.Duration(w) * 7 * 24 * time.Hour)
+		counter.CounterTime = func() time.Time { return now }
+		for p := 0; p < np; p++ {
+			if rnd.Intn(5) == 0 {
+				continue // this program did not run that week
+			}
+			f := counter.VerifNewFileProg(progs[p][0], progs[p][1], progs[p][2])
+			f.Rotate1()
+			_, e := f.Span()
+			n := 1 + rnd.Intn(9)
+			f.NewCounter("c").Add(int64(n))
+			files = append(files, cf{p, e, n, f.CurrentName()})
+			f.Close()
+			lastEnd = e
+		}
+	}
+	if len(files) == 0 {
+		return
+	}
+	start := lastEnd.Add(Pick(rnd, []time.Duration{time.Nanosecond, time.Second, time.Hour, 40 * time.Hour, 0, -time.Second, -8 * 24 * time.Hour}))
+	u := upload.VerifNewUploader(dir, "http://127.0.0.1:1/", start, nil, "v0.0.0-0", nil)
+	u.Run()
+	fields := []string{"uploadmulti", I(start.Unix()), I(int64(start.Nanosecond())), I(int64(len(files)))}
+	for _, c := range files {
+		_, statErr := os.Stat(c.name)
+		fields = append(fields, I(int64(c.p)), I(c.e.Unix()), I(int64(c.n)), B(statErr != nil))
+	}
+	// the reports: (week, program index, value of c)
+	type rv struct {
+		week string
+		p    int
+		v    int64
+	}
+	var rvs []rv
+	ents, _ := os.ReadDir(telemetry.Default.LocalDir())
+	for _, en := range ents {
+		if strings.HasPrefix(en.Name(), "local.") && strings.HasSuffix(en.Name(), ".json") {
+			var rep telemetry.Report
+			data, _ := os.ReadFile(filepath.Join(telemetry.Default.LocalDir(), en.Name()))
+			json.Unmarshal(data, &rep)
+			week := rep.Week
+			if en.Name() != "local."+rep.Week+".json" {
+				week = "MISMATCH:" + en.Name() + ":" + rep.Week
+			}
+			for _, pr := range rep.Programs {
+				pi := -1
+				for i := range progs {
+					if progs[i][0] == pr.Program {
+						pi = i
+					}
+				}
+				rvs = append(rvs, rv{week, pi, pr.Counters["c"]})
+			}
+		}
+	}
+	fields = append(fields, I(int64(len(rvs))))
+	for _, r := range rvs {
+		fields = append(fields, HS(r.week), I(int64(r.p)), I(r.v))
+	}
+	out.Note("upload-several-programs-and-weeks")
+	out.Case(true, fields...)
+}
+
 func main() {
 	outPath := os.Args[1]
 	n, _ := strconv.Atoi(os.Args[2])
@@ -518,6 +611,8 @@ func main() {
 			caseRealClock()
 		case i%25 == 24:
 			caseTimer()
+		case i%25 == 12:
+			caseUploadMulti()
 		case i%10 < 4:
 			caseSpan()
 		case i%10 < 5:
